@@ -842,7 +842,27 @@ fn corpus() -> Vec<Vec<Op>> {
 const KEYS: [&str; 3] = ["a", "a/b", "b"];
 const VALS: [&str; 3] = ["x", "y", ""];
 
+/// a small alphabet whose sequences are enumerated completely
+fn mini_alphabet() -> Vec<Op> {
+    let mut v = vec![Op::Put(s("a"), b("x")), Op::Put(s("a"), b("y")), Op::Delete(s("a")), Op::Put(s("b"), b("x"))];
+    for ver in [0u64, 1, 2] {
+        for x in ["x", "y"] {
+            v.push(Op::PutV(s("a"), ver, b(x)));
+        }
+    }
+    v.push(Op::PutV(s("b"), 1, b("x")));
+    v.push(Op::Batch(vec![(s("a"), 1, b("x")), (s("a"), 2, b("y"))]));
+    v.push(Op::Batch(vec![(s("a"), 2, b("x")), (s("a"), 1, b("x"))]));
+    v.push(Op::Batch(vec![(s("a"), 1, b("y")), (s("b"), 0, b("x"))]));
+    v.push(Op::Batch(vec![(s("b"), 2, b("x")), (s("a"), 1, b("x")), (s("a"), 1, b("y"))]));
+    v.extend([Op::Get(s("a")), Op::GetVersion(s("a")), Op::GetPrefix(s("")), Op::Reopen, Op::Enter, Op::Prepare, Op::Commit]);
+    v
+}
+
 fn alphabet(tier: &str) -> Vec<Op> {
+    if tier == "mini" {
+        return mini_alphabet();
+    }
     let mut v = vec![];
     let (keys, vers): (&[&str], &[u64]) = if tier == "quick" { (&KEYS[..2], &[0, 1, 2]) } else { (&KEYS[..], &[0, 1, 2, 3]) };
     for k in keys {
@@ -892,8 +912,19 @@ fn exhaustive(tier: &str, depth: usize, cap: usize, seed: u64, out: &mut Vec<Cas
     let alpha = alphabet(tier);
     let probe: Vec<String> = probe_of(&alpha, &[]);
     let mut seen: HashSet<String> = HashSet::new();
-    let mut frontier: Vec<Vec<Op>> = vec![vec![]];
-    seen.insert(Sys::new(&probe).fingerprint());
+    // roots: the empty stores; an open transaction; an open transaction over a committed one
+    let mut frontier: Vec<Vec<Op>> = vec![
+        vec![],
+        vec![Op::Enter],
+        vec![Op::Enter, Op::PutV(s("a"), 1, b("x")), Op::Prepare, Op::Commit, Op::Enter],
+    ];
+    for path in &frontier {
+        let mut sys = Sys::new(&probe);
+        for o in path {
+            sys.step(o);
+        }
+        seen.insert(sys.fingerprint());
+    }
     let mut levels = vec![];
     let mut complete = true;
     let mut rng = Rng::new(seed ^ 0xe4a);
@@ -950,7 +981,7 @@ fn exhaustive(tier: &str, depth: usize, cap: usize, seed: u64, out: &mut Vec<Cas
                 }
             }
         }
-        levels.push(json!({"prefix_len": level, "states": frontier.len(), "pairs": pairs, "new_states": next.len()}));
+        levels.push(json!({"level": level, "states": frontier.len(), "pairs": pairs, "new_states": next.len()}));
         if level + 1 < depth && next.len() > cap {
             complete = false;
             // deterministic sample of the frontier
@@ -965,7 +996,7 @@ fn exhaustive(tier: &str, depth: usize, cap: usize, seed: u64, out: &mut Vec<Cas
         }
         frontier = next;
     }
-    json!({"alphabet": alpha.len(), "max_len": depth, "levels": levels, "complete": complete, "states_seen": seen.len()})
+    json!({"alphabet": alpha.len(), "levels_run": depth, "roots": 3, "levels": levels, "complete": complete, "states_seen": seen.len()})
 }
 
 fn gen_version(rng: &mut Rng, cur: Option<u64>) -> u64 {
@@ -1104,10 +1135,13 @@ fn all(args: &Args) {
         cases.push(run_linear("corpus", &ops));
     }
     let n_corpus = cases.len();
-    let (depth, cap) = if quick { (3, 60) } else { (4, 2500) };
+    let (depth, cap) = if quick { (3, 25) } else { (4, 300) };
     let depth = args.rest.iter().position(|a| a == "--depth").map(|i| args.rest[i + 1].parse().unwrap()).unwrap_or(depth);
     let cap = args.rest.iter().position(|a| a == "--cap").map(|i| args.rest[i + 1].parse().unwrap()).unwrap_or(cap);
     let exh = exhaustive(&args.tier, depth, cap, args.seed, &mut cases);
+    // all sequences over the small alphabet, no cap
+    let mini_depth = args.rest.iter().position(|a| a == "--mini").map(|i| args.rest[i + 1].parse().unwrap()).unwrap_or(if quick { 3 } else { 5 });
+    let mini = exhaustive("mini", mini_depth, usize::MAX, args.seed, &mut cases);
     let n_exh = cases.len() - n_corpus;
     let mut rng = Rng::new(args.seed ^ 0x16c);
     for i in 0..args.n {
@@ -1126,7 +1160,7 @@ fn all(args: &Args) {
     emit(
         "STATS",
         json!({"profile": profile, "cases": stats.cases, "steps": stats.steps, "nontrivial": stats.nontrivial,
-               "corpus": n_corpus, "exhaustive_cases": n_exh, "random": args.n, "exhaustive": exh,
+               "corpus": n_corpus, "exhaustive_cases": n_exh, "random": args.n, "exhaustive": exh, "exhaustive_small": mini,
                "with_effective_commit": stats.with_commit, "with_reopen_after_write": stats.with_reopen,
                "requests": stats.ops, "results": stats.results, "monitor_findings": kinds}),
     );
